@@ -525,7 +525,7 @@ example (rest : Bytes) :
     (.unionOne0 (.array .intL))
     (by simp [encode, encodeItems, encBlocks, writeVarint, zigzag, putUvarint, inRange, Plan.leaf])
     (by simp [readBudget, Codec.sz, Value.sz, Value.szList]) rest (m := 4)
-    (by simp [ofAvro, mapFit, inRange, Codec.zero])
+    (by simp [ofAvro, mapFit, inRange])
 
 example (rest : Bytes) :
     skip env 14 (.unionOne (.array (.int 64 false) false) 0) ([0, 1, 2, 2, 4, 1, 0x80, 0x01, 0] ++ rest) = .ok rest :=
